@@ -12,6 +12,7 @@ import Glb.Model.PathCleanBytes
 import Glb.Model.AuxNetutil
 import Glb.Generated.TrHttpd
 import Glb.Model.Router
+import Glb.Model.AuxHttpd
 
 namespace Glb.Tie.TrMisc
 open Glb.Go
@@ -264,5 +265,52 @@ theorem Params_Get_nopanic (K V : List Bytes) (key : Bytes) (h : K.length ≤ V.
     have := firstIdx_lt key K i hf
     have hv : i < V.length := by omega
     exact ⟨(V[i], true), by simp [Glb.idx?, hv]⟩
+
+/-! ### httpd.(*Store).GetClientIP
+
+  The translated function takes the three `Header.Get` results as parameters; the model reads them
+  from a `Header`.  Exact equality (the only possible panics are those of `SplitHostPort`/`ip[:i]`,
+  which never happen, and their payloads agree anyway). -/
+
+section GetClientIP
+open Glb.Aux.Httpd
+
+private theorem indexByteFrom_eq (c : UInt8) (s : Bytes) (k : Nat) :
+    Lib.indexByteFrom c s k =
+      match Glb.Aux.Httpd.indexByte s c with
+      | some i => ((k + i : Nat) : Int)
+      | none => -1 := by
+  induction s generalizing k with
+  | nil => rfl
+  | cons x rest ih =>
+    simp only [Lib.indexByteFrom, Glb.Aux.Httpd.indexByte, beq_iff_eq]
+    by_cases h : x = c
+    · simp [h]
+    · simp only [h, if_false, ih]
+      cases Glb.Aux.Httpd.indexByte rest c with
+      | none => rfl
+      | some i => simp only [Option.map]; congr 1; omega
+
+theorem GetClientIP_eq (h : Header) (remote : Bytes) :
+    Glb.Tr.Httpd.GetClientIP (get h xClientIP) (get h xForwardedFor) (get h xRealIP) remote
+      = getClientIP h remote := by
+  unfold Glb.Tr.Httpd.GetClientIP getClientIP
+  rw [SplitHostPort_eq]
+  simp only [Lib.indexByte, indexByteFrom_eq, bind, Except.bind, pure, Except.pure, bne_iff_ne, ne_eq]
+  by_cases h1 : get h xClientIP = []
+  · by_cases h2 : get h xForwardedFor = []
+    · by_cases h3 : get h xRealIP = []
+      · simp [h1, h2, h3]
+      · simp [h1, h2, h3]
+    · have e44 : (44 : UInt8) = comma := rfl
+      simp only [h1, h2, not_true_eq_false, not_false_eq_true, if_true, if_false, e44]
+      cases hix : Glb.Aux.Httpd.indexByte (get h xForwardedFor) comma with
+      | none => simp
+      | some i =>
+        have : ¬ ((i : Int) = -1) := by omega
+        simp only [Nat.zero_add, this, not_false_eq_true, if_true, sliceTo]
+        simpa using slice_nat (get h xForwardedFor) 0 i
+  · simp [h1]
+end GetClientIP
 
 end Glb.Tie.TrMisc
